@@ -258,6 +258,12 @@ func cmdCheck(args []string) int {
 				ok, detail := selfReplay(w, cfg, entry, v)
 				if !ok {
 					o.inconclusive = append(o.inconclusive, fmt.Sprintf("%s: counterexample for %q did not self-replay (%s)", cfg.Name, v.Msg, detail))
+					if *verbose {
+						for _, t := range v.Trace {
+							say("    trace: %s", t)
+						}
+						say("    model: %v", v.Model)
+					}
 					continue
 				}
 				if kid != "" {
@@ -354,13 +360,13 @@ func cmdCheck(args []string) int {
 	}
 	wall := time.Since(t0).Seconds()
 	writeEvidence(&pf, *tier, seed, evs, samples, wall, nViol, inconclusive, w)
+	for _, m := range inconclusive {
+		fmt.Println("INCONCLUSIVE:", m)
+	}
 	if exit == 1 {
 		return 1
 	}
 	if len(inconclusive) > 0 {
-		for _, m := range inconclusive {
-			fmt.Println("INCONCLUSIVE:", m)
-		}
 		return 2
 	}
 	fmt.Printf("OK property=%s tier=%s wall=%.1fs\n", *prop, *tier, wall)
